@@ -275,9 +275,14 @@ def run_table(case, ctx):
             cfg["model_object"] = "reused-and-reparametrised"
             ctx.hit("build_ts_X_y.reused_model")
         try:
+            # the flag as a Python bool, as a NumPy bool (the result of a comparison, `.all()`, a cell of a
+            # boolean array) or as an integer
+            fk = ["bool", "numpy.bool_", "int"][(n + past + delay2 + ncol) % 3]
+            cfg["same_rows_given_as"] = fk
+            yes, no = {"bool": (True, False), "numpy.bool_": (numpy.True_, numpy.False_), "int": (1, 0)}[fk]
             with Poison(["mlinsights.timeseries.utils"]):
-                plain = build_ts_X_y(m, X, y, w, same_rows=False)
-                padded = build_ts_X_y(m, X, y, w, same_rows=True)
+                plain = build_ts_X_y(m, X, y, w, same_rows=no)
+                padded = build_ts_X_y(m, X, y, w, same_rows=yes)
         except Exception as e:
             ctx.violation("C20/build_ts_X_y/raised", "%s: %s" % (type(e).__name__, e), cfg=cfg)
             continue
@@ -342,6 +347,20 @@ def run_missing(case, ctx):
 
 
 def run_mape(case, ctx):
+    # one case in four runs under scikit-learn's process-wide assume_finite=True (set by users who validated their data
+    # once): the NaN rows of a forecast still mean "no forecast"
+    import contextlib
+    import sklearn
+    if case["sub"] % 4 == 0:
+        ctx.cls("sklearn.assume_finite=True")
+        with sklearn.config_context(assume_finite=True):
+            ctx.hit("ts_mape.under_assume_finite")
+            return _run_mape(case, ctx)
+    with contextlib.nullcontext():
+        return _run_mape(case, ctx)
+
+
+def _run_mape(case, ctx):
     from mlinsights.timeseries.metrics import ts_mape
     rng = numpy.random.RandomState(case["sub"] % (2 ** 31))
     n = int(rng.randint(3, 60))
